@@ -109,6 +109,8 @@ def process_input(line):
 async def main():
     try:
         # print(get_pages_encoded(), flush=True, file=_stdout)
+        # a request with undecodable bytes must get an error reply, not end the daemon
+        sys.stdin.reconfigure(errors="replace")
         while True:
             line = sys.stdin.readline()
 
